@@ -34,7 +34,13 @@ theorem Same.trans {a b c : State} (h1 : Same a b) (h2 : Same b c) : Same a c :=
 instance : ObsLocal Same where
   refl := Same.refl
   trans := Same.trans
-  of_eq _ _ h1 h2 h3 := ⟨by simp only [table, h1], h2, h3⟩
+  of_eq _ _ h1 h2 h3 _ _ := ⟨by simp only [table, h1], h2, h3⟩
+  logEv _ _ _ := ⟨rfl, rfl, rfl⟩
+
+/-- `Same` does not look at `nextToken` or the log -/
+macro_rules
+  | `(tactic| lleaf) =>
+    `(tactic| ((with_reducible apply Pres.modify); intro _; exact Same.mk rfl rfl rfl))
 
 theorem map_modify_row (a : Array ObsRec) (o : Nat) (g : ObsRec → ObsRec) (row : Row → Row)
     (h : ∀ x, a[o]? = some x → core3 (g x) = row (core3 x)) :
